@@ -288,6 +288,22 @@ fn scenarios(rng: &mut Rng) -> Vec<Scenario> {
                     }
                 }
             }
+            // option combination: an NTT-form scheme (BGV) whose ciphertexts live on the key level (special-prime-for-encryption
+            // flag): the shared decryptor races on ciphertexts that carry the key level's full modulus
+            {
+                let mut sp = tiny_spec(SchemeType::BGV, 8); sp.special_flag = true; sp.family = "c17-bgv-special-flag".into();
+                if let Ok(k2) = Kit::new(&sp) {
+                    let k2 = Arc::new(k2);
+                    for (name, sizes) in [("decryptor_bgv_keylevel_2_3", vec![2usize, 3]), ("decryptor_bgv_keylevel_3_4", vec![3, 4])] {
+                        let built = lib(|| sizes.iter().map(|&s| ct_of_size(&k2, s, rng)).collect::<Vec<_>>());
+                        let Ok(cts) = built else { continue };
+                        let seq = Decryptor::new(k2.ctx.clone(), k2.sk.clone());
+                        let Ok(exp) = lib(|| cts.iter().map(|c| plain_coeffs(&seq.decrypt_new(c), k2.n())).collect::<Vec<_>>()) else { continue };
+                        let (cts, expected, k) = (Arc::new(cts), Arc::new(exp), k2.clone());
+                        out.push(Scenario { name, threads: sizes.len(), make: Box::new(move || decryptor_instance(&k, &cts, &expected)), stress_only: false });
+                    }
+                }
+            }
             // shared key generator: relin keys (power 2), Galois keys (0 = no power), explicit powers
             let seqkg = KeyGenerator::from_sk(kit.ctx.clone(), kit.sk.clone());
             seqkg.verif_compute_powers(4);
